@@ -95,7 +95,7 @@ func (g *c12) defaultCase(req any, dflt string, what string) {
 					g.direct("panic:IfAbsentUnaryInterceptor:"+what, fmt.Sprintf("interceptor panicked: %v", p), js(req))
 				}
 			}()
-			return name.IfAbsentUnaryInterceptor(dflt)(context.Background(), in, &grpc.UnaryServerInfo{FullMethod: "/x/Y"},
+			return name.IfAbsentUnaryInterceptor(dflt)(context.Background(), in, &grpc.UnaryServerInfo{FullMethod: g.fullMethod()},
 				func(ctx context.Context, r any) (any, error) { calls++; seen = r; return "resp", sentinel })
 		}()
 		if calls != 1 || resp != "resp" || err != sentinel {
@@ -129,7 +129,7 @@ func (g *c12) defaultCase(req any, dflt string, what string) {
 			}
 			before := proto.Clone(src)
 			var rerr error
-			herr := name.IfAbsentStreamInterceptor(dflt)(nil, ss, &grpc.StreamServerInfo{FullMethod: "/x/Y"}, func(srv any, stream grpc.ServerStream) error {
+			herr := name.IfAbsentStreamInterceptor(dflt)(nil, ss, &grpc.StreamServerInfo{FullMethod: g.fullMethod(), IsClientStream: g.r.Chance(30), IsServerStream: g.r.Chance(70)}, func(srv any, stream grpc.ServerStream) error {
 				defer func() {
 					if p := recover(); p != nil {
 						g.direct("panic:IfAbsentStreamInterceptor:"+what, fmt.Sprintf("stream wrapper panicked: %v", p), js(req))
@@ -219,14 +219,40 @@ func (g *c12) nameDefaults() {
 		if err != nil {
 			continue
 		}
-		for _, nm := range []string{"", g.str() + "x"} {
+		// the empty name, an ordinary one, and one that is blank / padded / odd but NOT empty
+		for _, nm := range []string{"", g.str() + "x", g.oddName()} {
+			g.o.Extra["name:default:"+nameClass(nm)] = extraInt(g.o.Extra["name:default:"+nameClass(nm)]) + 1
 			m := mt.New()
 			g.fill(m, 1)
 			if fd := d.Fields().ByName("name"); fd != nil && fd.Kind() == protoreflect.StringKind && !fd.IsList() {
 				m.Set(fd, protoreflect.ValueOfString(nm))
 			}
-			g.defaultCase(m.Interface(), []string{"dev/1", "srv", ""}[g.r.Intn(3)], string(d.FullName()))
+			g.defaultCase(m.Interface(), []string{"dev/1", "srv", "", " "}[g.r.Intn(4)], string(d.FullName()))
 		}
+	}
+	// every member of every name class, on a generated request type and on a dynamic one whose name
+	// field is not field 1: only the empty string is an empty name
+	if mt, err := protoregistry.GlobalTypes.FindMessageByName("smartcore.traits.GetOnOffRequest"); err == nil {
+		var strName protoreflect.MessageDescriptor
+		for _, d := range oddTypes() {
+			if d.Name() == "StrName" {
+				strName = d
+			}
+		}
+		for _, cl := range nameClassOrder {
+			for _, nm := range nameClasses[cl] {
+				g.o.Extra["name:default:"+nameClass(nm)] = extraInt(g.o.Extra["name:default:"+nameClass(nm)]) + 2
+				m := mt.New()
+				m.Set(m.Descriptor().Fields().ByName("name"), protoreflect.ValueOfString(nm))
+				g.defaultCase(m.Interface(), "dev/1", "smartcore.traits.GetOnOffRequest")
+				dm := dynamicpb.NewMessage(strName)
+				dm.Set(strName.Fields().ByName("name"), protoreflect.ValueOfString(nm))
+				dm.Set(strName.Fields().ByName("other"), protoreflect.ValueOfString(g.oddName()))
+				g.defaultCase(dm, "dflt", "verif.c12.StrName")
+			}
+		}
+	} else {
+		g.direct("harness:no-GetOnOffRequest", "smartcore.traits.GetOnOffRequest not registered", nil)
 	}
 	for _, d := range oddTypes() {
 		for k := 0; k < 3; k++ {
